@@ -9,6 +9,7 @@ filter F:    None | ['any', [F...]] | ['all', [F...]] | ['not', F] | ['time', lo
 from __future__ import annotations
 
 import signal
+import time as _time
 
 from whenever import Instant, RepeatedTime, SkippedTime, Time, TimeDelta
 
@@ -106,7 +107,7 @@ def _alarm(*_a):
     raise Budget()
 
 
-def query(p, dt_ns: int, budget_s: int = 3):
+def query(p, dt_ns: int, budget_s: int = 1):
     """-> ['ok', ns] | ['raise', enum] | ['budget']"""
     signal.signal(signal.SIGALRM, _alarm)
     signal.alarm(budget_s)
@@ -136,6 +137,7 @@ def run_case(case: dict) -> dict:
     draws = Draws(case.get('fracs', [0.5]))
     old = prod_operation.uniform
     prod_operation.uniform = draws
+    t_start = _time.perf_counter()
     try:
         p = build(case['expr'])
         results = []
@@ -147,6 +149,13 @@ def run_case(case: dict) -> dict:
                 if r[0] != 'ok':
                     break
                 dt = r[1]
+        elif 'probe' in case:
+            for dt in case['probe']:
+                r = query(p, dt)
+                results.append([dt, r])
+                if r[0] == 'ok':
+                    for d in (r[1] - 1, r[1], r[1] + 1):
+                        results.append([d, query(p, d)])
         else:
             for dt in case['queries']:
                 results.append([dt, query(p, dt)])
@@ -155,4 +164,6 @@ def run_case(case: dict) -> dict:
     out = dict(case)
     out['results'] = results
     out['draws'] = draws.log
+    # a case that needed a lot of work is left out of the in-Coq evaluation (it is still checked by the oracles)
+    out['slow'] = (_time.perf_counter() - t_start) > 0.12 * max(1, len(results))
     return out
